@@ -158,23 +158,45 @@ fn contains_ci(name: &str, pat: &str, ci: bool) -> bool {
 
 fn filter_part(res: &mut PartResult, states: &mut vseq::States) {
     let pats = ["", "a", "ab", "B", "é"];
-    let mut sets: Vec<Vec<&str>> = vec![vec![]];
+    // pattern lists: none, one, and every ORDERED pair (incl. a pattern twice); each list is handed over in three ways:
+    // all at once (from_patterns), one by one (add_pattern on an empty layer), the first at once and the rest added
+    let mut sets: Vec<(Vec<&str>, u8)> = vec![(vec![], 0), (vec![], 1)];
     for i in 0..pats.len() {
-        sets.push(vec![pats[i]]);
-        for j in i + 1..pats.len() {
-            sets.push(vec![pats[i], pats[j]]);
+        for how in 0..2u8 {
+            sets.push((vec![pats[i]], how));
+        }
+        for j in 0..pats.len() {
+            for how in 0..3u8 {
+                sets.push((vec![pats[i], pats[j]], how));
+            }
         }
     }
-    for set in &sets {
+    for (set, how) in &sets {
         for ci in [false, true] {
             for dfa in [false, true] {
                 let log: Log = Default::default();
-                let mut fl = FilterLayer::from_patterns(set.iter());
+                let mut fl = match how {
+                    0 => FilterLayer::from_patterns(set.iter()),
+                    1 => {
+                        let mut f = FilterLayer::default();
+                        for p in set {
+                            f.add_pattern(*p);
+                        }
+                        f
+                    }
+                    _ => {
+                        let mut f = FilterLayer::from_patterns(set[..1].iter());
+                        for p in &set[1..] {
+                            f.add_pattern(*p);
+                        }
+                        f
+                    }
+                };
                 fl.case_insensitive(ci).use_dfa(dfa);
                 let rec = match vseq::catch(|| fl.layer(LogRec { id: 0, log: log.clone() })) {
                     Ok(r) => r,
                     Err(e) => {
-                        res.violation("filter-layer-panic", format!("building a filter for {:?} ci={} dfa={} panicked: {}", set, ci, dfa, e), json!({"part": "filter"}));
+                        res.violation("filter-layer-panic", format!("building a filter for {:?} (handed over {}) ci={} dfa={} panicked: {}", set, ["at once", "one by one", "first at once, rest added"][*how as usize], ci, dfa, e), json!({"part": "filter"}));
                         continue;
                     }
                 };
@@ -187,7 +209,7 @@ fn filter_part(res: &mut PartResult, states: &mut vseq::States) {
                         let want = if filtered { vec![] } else { expect(0, &name, kind) };
                         states.add(&(filtered, got.len()));
                         if got != want {
-                            res.violation(if filtered { "filter-layer-let-matching-name-through" } else { "filter-layer-dropped-or-changed-non-matching-name" }, format!("patterns {:?} ci={} dfa={} name {:?} {}: inner saw {:?}, expected {:?}", set, ci, dfa, name, KINDS[kind], got, want), json!({"part": "filter", "name": name}));
+                            res.violation(if filtered { "filter-layer-let-matching-name-through" } else { "filter-layer-dropped-or-changed-non-matching-name" }, format!("patterns {:?} (handed over {}) ci={} dfa={} name {:?} {}: inner saw {:?}, expected {:?}", set, ["at once", "one by one", "first at once, rest added"][*how as usize], ci, dfa, name, KINDS[kind], got, want), json!({"part": "filter", "name": name}));
                         }
                     }
                 }
@@ -397,7 +419,7 @@ fn main() {
     driver::main(CheckDef {
         prop: "C13",
         level: "model_checking",
-        rule: "names = all strings of length <= 4 over {a,b,.,A} plus {\"\", é, aé, p.a}; for each name and kind the describe, register and every handle operation is driven through: the prefix layer (4 prefixes), the filter layer (all pattern sets of <= 2 over {\"\",a,ab,B,é} x case-insensitive x DFA), the router (all ordered route tables of <= 3 (thorough 5) routes over 6 patterns x 4 kind masks, incl. duplicates and overlaps), the fanout (width 0-3) and all stacks of <= 3 layers from {Prefix p, Prefix q.r, Filter a, Filter p.} in every order; logging doubles record exactly what reached which recorder, compared with a reference written from the docs; distinct = distinct (owner / filtered / log shape) outcomes",
+        rule: "names = all strings of length <= 4 over {a,b,.,A} plus {\"\", é, aé, p.a}; for each name and kind the describe, register and every handle operation is driven through: the prefix layer (4 prefixes), the filter layer (all ordered pattern lists of <= 2 over {\"\",a,ab,B,é}, handed over at once, one by one through add_pattern, or mixed, x case-insensitive x DFA), the router (all ordered route tables of <= 3 (thorough 5) routes over 6 patterns x 4 kind masks, incl. duplicates and overlaps), the fanout (width 0-3) and all stacks of <= 3 layers from {Prefix p, Prefix q.r, Filter a, Filter p.} in every order; logging doubles record exactly what reached which recorder, compared with a reference written from the docs; distinct = distinct (owner / filtered / log shape) outcomes",
         assumptions: &["ASCII case folding for case-insensitive filters (as aho-corasick documents)", "with duplicated routes either owner is accepted, but exactly one"],
         parts,
         run,
